@@ -2221,27 +2221,39 @@ class ktensor:
         ), "Modes must be sorted in ascending order"
 
         loc = 0  # Location in data array
+        # Collect the new values first so that a rejected request leaves self untouched
+        updates = []
         for k in modes:
             if k == -1:
                 # update weights
                 endloc = loc + self.ncomponents
                 if len(data) < endloc:
                     assert False, "Data is too short"
-                self.weights = data[loc:endloc].copy()
+                updates.append((k, data[loc:endloc].copy()))
                 loc = endloc
             elif k < self.ndims:
                 # update factor matrix
                 endloc = loc + self.shape[k] * self.ncomponents
                 if len(data) < endloc:
                     assert False, "Data is too short"
-                self.factor_matrices[k] = np.reshape(
-                    data[loc:endloc].copy(),
-                    (self.shape[k], self.ncomponents),
-                    order=self.order,
+                updates.append(
+                    (
+                        k,
+                        np.reshape(
+                            data[loc:endloc].copy(),
+                            (self.shape[k], self.ncomponents),
+                            order=self.order,
+                        ),
+                    )
                 )
                 loc = endloc
             else:
                 assert False, f"Invalid mode: {k}"
+        for k, new_value in updates:
+            if k == -1:
+                self.weights = new_value
+            else:
+                self.factor_matrices[k] = new_value
 
         ## Check that we used all the data
         if loc != len(data):
